@@ -123,3 +123,81 @@ Proof.
   assert (Hb2 : IZR Bj * (- eps) <= IZR Bj * (IZR pw / D18 - t)) by (apply Rmult_le_compat_l; lra).
   apply Rabs_le. split; lra.
 Qed.
+
+(* ---------- single-asset join: shares minted against the value function ---------- *)
+(* pure real analysis: minting at most S ((1+e) y^nw - 1) shares, y = (B + a')/B, lowers B^nw / S by at most the factor 1/(1+e) *)
+Lemma join_value_abstract B a' nw S s e :
+  0 < B -> 0 <= a' -> 0 < nw -> 0 < S -> 0 <= e -> 0 <= s ->
+  s <= S * ((1 + e) * Rpower ((B + a') / B) nw - 1) ->
+  Rpower B nw / S <= (1 + e) * (Rpower (B + a') nw / (S + s)).
+Proof.
+  intros HB Ha Hnw HS He Hs Hle.
+  set (y := (B + a') / B). assert (Hy : 0 < y) by (unfold y; apply Rdiv_lt_0_compat; lra).
+  assert (Hp : 0 < Rpower y nw) by (unfold Rpower; apply exp_pos).
+  assert (HBn : 0 < Rpower B nw) by (unfold Rpower; apply exp_pos).
+  assert (E : Rpower (B + a') nw = Rpower B nw * Rpower y nw).
+  { rewrite Rpower_mult_distr; try lra. f_equal. unfold y. field. lra. }
+  assert (Hss : S + s <= S * ((1 + e) * Rpower y nw)) by (fold y in Hle; lra).
+  assert (Hpos : 0 < S + s) by lra.
+  rewrite E.
+  apply Rmult_le_reg_r with (S * (S + s)); [apply Rmult_lt_0_compat; lra|].
+  replace (Rpower B nw / S * (S * (S + s))) with (Rpower B nw * (S + s)) by (field; lra).
+  replace ((1 + e) * (Rpower B nw * Rpower y nw / (S + s)) * (S * (S + s))) with (Rpower B nw * (S * ((1 + e) * Rpower y nw))) by (field; lra).
+  apply Rmult_le_compat_l; lra.
+Qed.
+
+Section PowAccuracyAbove.
+  (* SECTION HYPOTHESIS - on bases in [1, 2) (alternating series, error below the last term) the computed power is not ABOVE the
+     true power of its 18-decimal operands by more than eps *)
+  Variable eps : R.
+  Hypothesis eps_nonneg : 0 <= eps.
+  Hypothesis pow_accurate_from_above : forall b e r : Z,
+    (P18 <= b < 2 * P18)%Z -> (0 <= e)%Z -> pow b e = Ok r ->
+    IZR r / D18 <= Rpower (IZR b / D18) (IZR e / D18) + eps.
+
+  (* single-asset join of a tokens into an asset with reserve B and normalised weight nw (18 decimals), share total S:
+     B^nw / S (the asset's contribution to the value per share; nothing else changes) falls by at most the factor
+     1 / (1 + eta + eps / y^nw), y = (B + a)/B, where eta bounds what the 18-decimal operand rounding adds to the power
+     (the spread factor only lowers the base the code uses) *)
+  Theorem single_join_value_partial p bal w a fee ts s (eta : R) :
+    b_calc_single_asset_join p bal w a fee ts = Ok s ->
+    let nwd := d_quo (dec_of_int w) (dec_of_int (b_total_weight p)) in
+    forall fr, fee_ratio nwd fee = Ok fr ->
+    let yd := d_quo (dec_of_int bal + d_mul (dec_of_int a) fr) (dec_of_int bal) in
+    let B := IZR bal in let S := IZR ts in let nw := IZR nwd / D18 in
+    let pt := Rpower ((B + IZR a) / B) nw in
+    0 < B -> 0 <= IZR a -> 0 < nw -> 0 < S -> (0 <= s)%Z ->
+    (P18 <= yd < 2 * P18)%Z -> (0 <= nwd)%Z ->                                 (* the explicit base range *)
+    Rpower (IZR yd / D18) nw <= pt * (1 + eta) -> 0 <= eta ->                  (* operand rounding *)
+    Rpower B nw / S <= (1 + (eta + eps / pt)) * (Rpower (B + IZR a) nw / (S + IZR s)).
+  Proof.
+    intros H nwd fr Hfr yd B S nw pt HB Ha Hnw HS Hs Hrange Hnwd Hop Heta.
+    apply b_single_asset_join_floor in H as (nw' & fr' & y & pw & Hnw' & Hfr' & Hy & Hpw & Hsv).
+    fold nwd in Hnw'. subst nw'. rewrite Hfr in Hfr'. inversion Hfr'; subst fr'. fold yd in Hy. subst y.
+    pose proof (pow_accurate_from_above yd nwd pw Hrange Hnwd Hpw) as Hacc. fold nw in Hacc.
+    pose proof D18_pos as HD.
+    assert (Hpt : 0 < pt) by (unfold pt, Rpower; apply exp_pos).
+    assert (Hpt1 : 1 <= pt).
+    { unfold pt. rewrite <- (Rpower_O ((B + IZR a) / B)) at 1; [|apply Rdiv_lt_0_compat; lra].
+      apply Rle_Rpower; [|lra]. apply Rmult_le_reg_r with B; [lra|]. replace ((B + IZR a) / B * B) with (B + IZR a) by (field; lra). lra. }
+    assert (He : 0 <= eta + eps / pt).
+    { assert (0 <= eps / pt) by (apply Rmult_le_pos; [assumption|left; apply Rinv_0_lt_compat; assumption]). lra. }
+    assert (HP : (0 < P18)%Z) by reflexivity.
+    assert (Hs' : 0 <= IZR s) by (apply IZR_le; exact Hs).
+    apply join_value_abstract; try lra. fold pt.
+    destruct (Z_lt_le_dec ((pw - P18) * ts) 0) as [Hneg|Hnn].
+    - (* the truncated product is not positive: nothing was minted *)
+      assert ((s <= 0)%Z) by (subst s; apply Z.quot_le_upper_bound; [reflexivity|lia]).
+      assert (s = 0%Z) by lia. subst s. rewrite H0.
+      assert (0 <= S * ((1 + (eta + eps / pt)) * pt - 1)) by (apply Rmult_le_pos; [lra|nra]). lra.
+    - (* s = floor((pw - 1e18) S / 1e18) <= S (pw/1e18 - 1) <= S ((1 + eta + eps/pt) pt - 1) *)
+      pose proof (Z.quot_rem' ((pw - P18) * ts) P18) as Hqr. pose proof (Z.rem_bound_pos ((pw - P18) * ts) P18 Hnn HP) as Hr.
+      assert (Hfl : (s * P18 <= (pw - P18) * ts)%Z) by (subst s; lia).
+      apply IZR_le in Hfl. rewrite !mult_IZR, minus_IZR in Hfl. fold S D18 in Hfl.
+      assert (Hsle : IZR s <= S * (IZR pw / D18 - 1)).
+      { apply Rmult_le_reg_r with D18; [exact HD|]. replace (S * (IZR pw / D18 - 1) * D18) with ((IZR pw - D18) * S) by (field; lra). exact Hfl. }
+      assert (Hup : IZR pw / D18 <= (1 + (eta + eps / pt)) * pt).
+      { replace ((1 + (eta + eps / pt)) * pt) with (pt * (1 + eta) + eps) by (field; lra). lra. }
+      eapply Rle_trans; [exact Hsle|]. apply Rmult_le_compat_l; lra.
+  Qed.
+End PowAccuracyAbove.
